@@ -1,74 +1,28 @@
-"""Which specification modules, bounded instances, generators and judges decide each property."""
+"""Which specification modules, bounded instances, generators and judges decide each property.
+One file per property under bin/plans/ (PLAN_ENTRY, CLAIM, optional generator functions)."""
+import os, glob, importlib.util
 
 def cfgs(q, t):
     return {'quick': q, 'thorough': t}
 
-PLAN = {
-    'C01': {
-        'stages': [
-            {'name': 'stations',
-             'mc': [{'module': 'MC_C01', 'cfg': cfgs('MC_C01_quick.cfg', 'MC_C01_thorough.cfg'), 'workers': 8}],
-             'gens': ['gen_c01_random'],
-             'trace': 'Trace_Curve'},
-        ],
-        'assumptions': [
-            'TLC evaluates the L1 operators of Curve.tla correctly (exact integer arithmetic)',
-            'harness projection: coordinates/lengths quantised to 2^-16 lattice units, directions to 2^-14, infinitesimals realised as next_up/next_down',
-            'edges have integer length (axis-parallel / Pythagorean) times a power-of-two scale; irrational edge lengths are outside the exact domain',
-        ],
-    },
-    'C04': {
-        'stages': [
-            {'name': 'portions', 'stateful': True,
-             'mc': [{'module': 'MC_C04', 'cfg': cfgs('MC_C04_quick.cfg', 'MC_C04_thorough.cfg'), 'workers': 8},
-                    {'module': 'MC_C04', 'cfg': cfgs('MC_C04_sim.cfg', 'MC_C04_sim.cfg'), 'workers': 4,
-                     'simulate': {'quick': 'num=600', 'thorough': 'num=20000'}, 'extra_depth': 12}],
-             'trace': 'Trace_Curve'},
-        ],
-        'assumptions': [
-            'TLC evaluates the derived-curve operators of Curve.tla correctly (exact rational arithmetic)',
-            'harness projection: vertices/lengths of results quantised to 1/640 lattice unit (all exact values are multiples of 1/10)',
-            'tolerance is tiny (2^-20 unit): the |l1-l0| < tol guard is exercised only at zero travel',
-        ],
-    },
-    'C05': {
-        'stages': [
-            {'name': 'resample',
-             'mc': [{'module': 'MC_C05', 'cfg': cfgs('MC_C05_quick.cfg', 'MC_C05_thorough.cfg'), 'workers': 8}],
-             'gens': ['gen_c05_random'],
-             'trace': 'Trace_Curve'},
-        ],
-        'assumptions': [
-            'TLC evaluates the resampling / simplification / gap-filling operators of Curve.tla correctly (exact rational arithmetic)',
-            'harness projection: vertices quantised to 2^-14 lattice unit',
-        ],
-    },
-    'C12': {
-        'stages': [
-            {'name': 'topo',
-             'mc': [{'module': 'MC_C12', 'cfg': cfgs('MC_C12_thorough.cfg', 'MC_C12_thorough.cfg'), 'workers': 8},
-                    {'module': 'MC_C12', 'cfg': cfgs('MC_C12_tetra.cfg', 'MC_C12_tetra.cfg'), 'workers': 8},
-                    {'module': 'MC_C12b', 'cfg': cfgs('MC_C12b_quick.cfg', 'MC_C12b_thorough.cfg'), 'workers': 8}],
-             'gens': ['gen_c12_random'],
-             'trace': 'Trace_Topo'},
-        ],
-        'assumptions': [
-            'TLC evaluates the L1/L2 operators of MeshTopo.tla correctly',
-            'hash iteration order of the real code is sampled by repetition (fresh RandomState per map), the model covers all orders',
-            'each mesh case runs in a child process with a wall-clock and memory limit; exceeding it is reported as non-termination',
-        ],
-    },
-    'C18': {
-        'stages': [
-            {'name': 'angles',
-             'mc': [{'module': 'MC_C18', 'cfg': cfgs('MC_C18_quick.cfg', 'MC_C18_thorough.cfg')}],
-             'gens': ['gen_angles'],
-             'trace': 'Trace_Angles'},
-        ],
-        'assumptions': [
-            'TLC evaluates the L1 operators of Angles.tla correctly',
-            'harness projection (quantisation to TAU/2^24, three-way float comparisons against the range bounds) is faithful',
-            'lattice angles k*TAU/16 (+-1 ulp) and coded scalar bounds stand for the continuous families; big angles only through sin/cos agreement',
-        ],
-    },
-}
+PLAN = {}
+CLAIMS = {}
+MODULES = []
+_here = os.path.join(os.path.dirname(os.path.abspath(__file__)), 'plans')
+for _f in sorted(glob.glob(os.path.join(_here, 'C*.py'))):
+    _pid = os.path.basename(_f)[:-3]
+    _spec = importlib.util.spec_from_file_location('plans_' + _pid, _f)
+    _m = importlib.util.module_from_spec(_spec)
+    _spec.loader.exec_module(_m)
+    PLAN[_pid] = _m.PLAN_ENTRY
+    CLAIMS[_pid] = _m.CLAIM
+    MODULES.append(_m)
+
+def find_gen(name):
+    import gens
+    if hasattr(gens, name):
+        return getattr(gens, name)
+    for m in MODULES:
+        if hasattr(m, name):
+            return getattr(m, name)
+    raise KeyError(name)
